@@ -153,6 +153,7 @@ class Engine:
         self.parent = {}
         self.exit_states = []     # (kind, block, state)
         self.event_index = {}     # (kind, block, si) -> one Ev instance (for evidence)
+        self.obligations = set()  # (rule, what, block) evaluated on at least one path
         self.truncated = False
 
     # ------------------------------------------------------------- driver
@@ -211,6 +212,9 @@ class Engine:
         p = self.fn.prov[b] if hasattr(self.fn, "prov") else (self.fn.path, b, ())
         t = self.fn.blocks[b]["term"]
         return {"fn": p[0], "bb": p[1], "via": list(p[2]), "file": t.get("file"), "line": t.get("line")}
+
+    def obl(self, rule, what, b):
+        self.obligations.add((rule, what, b))
 
     def violate(self, rule, key, msg, b, st, **extra):
         k = (rule, key)
@@ -603,6 +607,7 @@ class Engine:
             st = self.emit(ev, st)
         out = [(t["target"], st)]
         if isinstance(t["unwind"], int) and any(ev.kind in ("user", "handle_drop") for ev in evs):
+            self.obl("UNW-1", "unwind-edge-of-destructor", b)
             # the destructor ran (the value is gone) and panicked
             ust = st.replace(flags=st.flags | {("unwinding", b)})
             out.append((t["unwind"], ust))
@@ -654,6 +659,8 @@ class Engine:
         if isinstance(t["unwind"], int):
             can_unwind = any(ev.kind in ("user", "handle_drop", "indirect", "alloc", "panic", "extcall", "borrow", "tbl") for ev in evs)
             if can_unwind:
+                if any(ev.kind in ("user", "handle_drop", "indirect") for ev in evs):
+                    self.obl("UNW-1", "unwind-edge-of-user-call", b)
                 ust = st.replace(flags=st.flags | {("unwinding", b)})
                 out.append((t["unwind"], ust))
         return out
